@@ -126,7 +126,7 @@ def run_one(i, deadline_s, eng=None, ctx=None):
     fd, crumb = tempfile.mkstemp(prefix="crumb-", dir=vlib.BUILD)
     os.close(fd)
     cmd = [binp, "--explore", "--K", str(i["K"]), "--L", str(i["L"]), "--reloc", str(i.get("reloc", 0)), "--crumb", crumb,
-           "--deadline", str(int(deadline_s))] + i["opts"]
+           "--deadline", str(int(deadline_s)), "--merge-check", str(i.get("merge_check", 150))] + i["opts"]
     rc, out, err = vlib.run(cmd, timeout=deadline_s + 120)
     res = None
     if rc == 0:
@@ -231,6 +231,7 @@ def explore(ctx, matrix, want_tags, engine="E1", any_fail_counts=False, eng=None
         tot["violating"] += res["violating_transitions"]
         maxdepth = max(maxdepth, res["max_depth"])
         exhaustive = exhaustive and res["complete"]
+        tot["merges"] = tot.get("merges", 0) + res.get("merges_checked", 0)
         insts.append({"name": name(i), "K": i["K"], "L": i["L"], "reloc": i.get("reloc", 0), "states": res["states"], "transitions": res["transitions"],
                       "max_depth": res["max_depth"], "complete": res["complete"], "distinct_outcomes": res["distinct_outcomes"]})
         for s in res["samples"][:2]:
@@ -277,7 +278,7 @@ def explore(ctx, matrix, want_tags, engine="E1", any_fail_counts=False, eng=None
     cov = {
         "states": tot["states"], "transitions": tot["transitions"], "traces_validated_against_impl": tot["transitions"],
         "samples": samples[:12], "instantiations": insts, "max_depth": maxdepth, "distinct_outcomes": tot["outcomes"],
-        "violating_transitions_all_monitors": tot["violating"], "exhaustive": exhaustive, "fault_transitions": tot.get("fault_transitions", 0),
+        "violating_transitions_all_monitors": tot["violating"], "exhaustive": exhaustive, "fault_transitions": tot.get("fault_transitions", 0), "state_merges_whose_futures_were_compared": tot.get("merges", 0),
         "bound": "every history whose container sizes stay <= L (per instantiation), pool size K, to the BFS fixpoint",
     }
     return cov
@@ -308,7 +309,7 @@ def relevant(pid, i):
 def merge_cov(a, b):
     """combine the coverage records of two explorations (vector + set engines)"""
     c = dict(a)
-    for k in ("states", "transitions", "traces_validated_against_impl", "distinct_outcomes", "violating_transitions_all_monitors", "fault_transitions"):
+    for k in ("states", "transitions", "traces_validated_against_impl", "distinct_outcomes", "violating_transitions_all_monitors", "fault_transitions", "state_merges_whose_futures_were_compared"):
         c[k] = a[k] + b[k]
     c["samples"] = a["samples"][:6] + b["samples"][:6]
     c["instantiations"] = a["instantiations"] + b["instantiations"]
